@@ -571,6 +571,31 @@ def io(prog, ctx):
     oki = len(pb) == 1 and show(strip_casts(pb[0]['args'][0])).replace(' ', '') in ('x*%s' % ps[1], '%s*x' % ps[1])
     ign = [s for s in walk_stmts(il.body) if s['k'] == 'For' and show(s['cond']).replace(' ', '') == 'i<%s' % ps[2]]
     ctx.decide(R, 'Import_List', il, oki and len(ign) == 1, 'returns token*dimension after skipping ignored_initial_lines lines', 'Import_List not recognised')
+    # a header line is skipped as a whole only by an unbounded ignore(max, '\n') or by std::getline
+    for rd in (il, prog.fn(L + 'Import_Table')):
+        igs = [c for c in calls(rd) if c.get('kind') == 'method' and (c.get('callee') or {}).get('name') == 'ignore']
+        gls = [c for c in calls(rd) if (c.get('callee') or {}).get('q') == 'std::getline']
+        inst = rd.name + ':line-skip'
+        if not igs and gls:
+            ctx.holds(R, inst, rd, 'header lines are consumed with std::getline')
+            continue
+        if not igs:
+            ctx.undecided(R, inst, rd, 'no ignore(...)/getline call found: how header lines are skipped is not understood')
+            continue
+        bounded = []
+        for c in igs:
+            a0 = strip_casts(c['args'][0]) if c.get('args') else None
+            if a0 is not None and a0.get('k') == 'Lit' and a0.get('lk') == 'int':
+                bounded.append(int(a0['v']))
+            elif a0 is None or not (a0.get('k') == 'Call' and 'numeric_limits' in (a0.get('callee') or {}).get('q', '') and (a0.get('callee') or {}).get('name') == 'max'):
+                bounded.append(None)
+        if None in bounded:
+            ctx.undecided(R, inst, rd, 'ignore() count is neither a literal nor numeric_limits<streamsize>::max()')
+        else:
+            ctx.decide(R, inst, rd, not bounded, 'header lines are skipped with an unbounded ignore(max, newline)',
+                       'ignore(%s, newline) stops after %s characters even when no newline was seen: the rest of a longer header line is read as data '
+                       '(a line of exactly that length makes the following header line data)' % (bounded[0] if bounded else '', bounded[0] if bounded else ''),
+                       witness={'reproducer': 'Export_Table with a header line of 10001 characters, Import_Table with 1 ignored line: shape 2 x 0 instead of 2 x 2'} if bounded else None)
     efs = prog.fns(L + 'Export_Function')
     for f in efs:
         ps = [p['name'] for p in f.params]
